@@ -98,6 +98,9 @@ func (f *WithInputFromString) Call(s *slip.Scope, args slip.List, depth int) (re
 	args = args[1:]
 	for i := range args {
 		result = slip.EvalArg(s2, args, i, d2)
+		if isTransfer(result) {
+			break // a return-from, return or go is passed on to its target
+		}
 	}
 	if place != nil {
 		pos, _ := reader.Seek(0, io.SeekCurrent)
